@@ -4,7 +4,8 @@ traces (SMACK skips, early/missing/repeated CCS, bad/plaintext Finished, data be
 Tape layout = order of draws in prop() of props/C06/seq12.cc (random target):
   victim_server, sv, cauth, ems-index, resumed(0 = resumed!), seed hi, seed lo, nsel (1..5 one op, 6..9 two ops), ops..., trailer (0,1 = one record), vary (0)"""
 import os
-O_DEL, O_DUP, O_SWAP, O_RETAG, O_SUBST, O_INJECT, O_FLIPFIN, O_PROT, O_MODE, O_CCSBODY, O_SECRET = range(11)
+O_DEL, O_DUP, O_SWAP, O_RETAG, O_SUBST, O_INJECT, O_FLIPFIN, O_PROT, O_MODE, O_CCSBODY, O_SECRET, O_FINFRAG, O_CVFRAG = range(13)
+HONEST, ZERO, FF, ARBITRARY, BITFLIP = range(5)   # body of a fragmented Finished / CertificateVerify
 T = dict(HR=0, CH=1, SH=2, NST=3, CERT=4, CERT0=5, SKE=6, CR=7, SHD=8, CV=9, CKE=10, FIN=11, CCS=12, APP=13, WARN=14, UNK=15)
 RSA_GCM, ECDHE_GCM, RSA_CBC256, ECDHE_CBC256, RSA_CBC_11, ECDHE_CBC_11 = range(6)
 
@@ -13,7 +14,7 @@ def op(kind, *args):
     return [kind] + list(args)
 
 
-def tape(server, sv, cauth, ops, resumed=False, ems=0, ticket=None, cut=None):
+def tape(server, sv, cauth, ops, resumed=False, ems=0, ticket=None, cut=None, cticket=0):
     """ticket (client victim only): 'accept' / 'decline' = the client's session holds an id AND a ticket and the server echoes the id / answers with a fresh id
     (5th byte 4 selects the mode, the low bit of the seed accepts)"""
     kind = 4 if ticket else (0 if resumed else 1)
@@ -21,6 +22,9 @@ def tape(server, sv, cauth, ops, resumed=False, ems=0, ticket=None, cut=None):
     if cut:   # (cut point 1 after-SHD / 2 after-NST / 3 after-NST+CCS, ended by alert?): 5th byte 3, cut = 1 + (seed >> 1) % 3, alert = seed & 1
         kind = 3
         seed_lo = {(1, 0): 0, (1, 1): 1, (2, 0): 2, (2, 1): 3, (3, 0): 4, (3, 1): 5}[cut]
+    if cticket:   # server victim (ticket keys loaded) whose client offers the SessionTicket extension: 1 empty, 2 bogus ticket (5th byte 3, low seed bit)
+        kind = 3
+        seed_lo = 6 + (cticket - 1)
     b = [1 if server else 0, sv, 1 if cauth else 0, ems, kind, 0, seed_lo, 1 if len(ops) == 1 else 6 if len(ops) == 2 else 0]
     for o in ops:
         b += o
@@ -91,6 +95,27 @@ CASES = {
     'cli-cut-after-nst-ccs-zero-secret-resumption-tls11': tape(False, RSA_CBC_11, False, [op(O_SECRET, 0)], cut=(3, 0)),
     'cli-cut-after-nst-random-secret-resumption': tape(False, RSA_GCM, False, [op(O_SECRET, 1)], cut=(2, 0)),
     'cli-id+ticket-declined-zero-secret-resumption-empty-sid': tape(False, RSA_GCM, False, [op(O_SECRET, 2)], ticket='decline'),
+    # Finished / CertificateVerify split over several records: O_FINFRAG args = (bytes per record - 4, body), O_CVFRAG args = (index into 4,5,8,100,131,200,255, body)
+    'srv-honest-fragmented-finished': tape(True, RSA_GCM, False, [op(O_FINFRAG, 4, HONEST)]),
+    'cli-honest-fragmented-finished': tape(False, ECDHE_GCM, False, [op(O_FINFRAG, 1, HONEST)]),
+    'srv-honest-fragmented-finished-tls11': tape(True, RSA_CBC_11, False, [op(O_FINFRAG, 0, HONEST)]),
+    'srv-resumed-honest-fragmented-finished': tape(True, RSA_GCM, False, [op(O_FINFRAG, 8, HONEST)], resumed=True),
+    'cli-resumed-honest-fragmented-finished': tape(False, RSA_CBC256, False, [op(O_FINFRAG, 11, HONEST)], resumed=True),
+    'srv-zero-verify-data-fragmented': tape(True, RSA_GCM, False, [op(O_FINFRAG, 4, ZERO)]),
+    'cli-zero-verify-data-fragmented': tape(False, RSA_GCM, False, [op(O_FINFRAG, 4, ZERO)]),
+    'cli-resumed-zero-verify-data-fragmented': tape(False, ECDHE_GCM, False, [op(O_FINFRAG, 2, ZERO)], resumed=True),
+    'srv-ff-verify-data-fragmented-tls11': tape(True, ECDHE_CBC_11, False, [op(O_FINFRAG, 6, FF)]),
+    'srv-bitflip-verify-data-fragmented': tape(True, ECDHE_CBC256, False, [op(O_FINFRAG, 9, BITFLIP)]),
+    'srv-honest-fragmented-certificate-verify': tape(True, RSA_GCM, True, [op(O_CVFRAG, 3, HONEST)]),
+    'srv-honest-fragmented-certificate-verify-tls11': tape(True, RSA_CBC_11, True, [op(O_CVFRAG, 0, HONEST)]),
+    'srv-zero-signature-fragmented-certificate-verify': tape(True, ECDHE_GCM, True, [op(O_CVFRAG, 5, ZERO)]),
+    # server with session-ticket keys whose client offers the SessionTicket extension: NewSessionTicket and friends from the CLIENT
+    'srv-ticket-ext-legal': tape(True, RSA_GCM, False, [], cticket=1),
+    'srv-bogus-ticket-legal': tape(True, ECDHE_GCM, True, [], cticket=2),
+    'srv-ticket-ext-nst-from-client': tape(True, RSA_GCM, False, [op(O_INJECT, 2, T['NST'])], cticket=1),
+    'srv-bogus-ticket-nst-from-client-after-certificate-verify': tape(True, ECDHE_GCM, True, [op(O_INJECT, 4, T['NST'])], cticket=2),
+    'srv-ticket-ext-nst-from-client-tls11': tape(True, RSA_CBC_11, False, [op(O_INJECT, 2, T['NST'])], cticket=1),
+    'srv-ticket-ext-server-hello-done-from-client': tape(True, RSA_GCM, False, [op(O_INJECT, 2, T['SHD'])], cticket=1),
     'cli-resumed-abbreviated-when-full-expected': tape(False, RSA_GCM, False, [op(O_MODE, 2)]),
 }
 
